@@ -253,6 +253,27 @@ def specs(max_modules=3, aux=True, rich_refs=False, max_aux_depth=2):
                 "how": draw(st.integers(0, 2)),
             }
             edges.append(e)
+        # parallel edges that differ in exactly one label component (or None vs
+        # all-false): the cases where label comparison / ordering matters
+        for _ in range(draw(st.sampled_from([0, 0, 1, 2]))):
+            if not edges:
+                break
+            base = edges[draw(st.integers(0, len(edges) - 1))]
+            lab = base["label"]
+            if lab is None:
+                new_lab = [sc["edge_type"][0], False, False]
+            else:
+                which = draw(st.integers(0, 3))
+                if which == 0:
+                    new_lab = None
+                elif which == 1:
+                    new_lab = [lab[0], not lab[1], lab[2]]
+                elif which == 2:
+                    new_lab = [lab[0], lab[1], not lab[2]]
+                else:
+                    others = [t for t in sc["edge_type"] if t != lab[0]]
+                    new_lab = [draw(st.sampled_from(others)), lab[1], lab[2]]
+            edges.append({"src": base["src"], "tgt": base["tgt"], "label": new_lab, "how": draw(st.integers(0, 2))})
         return {
             "salt": draw(st.integers(0, 0xFFFFFFFF)),
             "ir": {"id": nid(), "aux": aux_list(), "aux_how": draw(st.integers(0, 1))},
